@@ -39,7 +39,13 @@ STANDARD_INSERTING_OPS = ("add", "move", "copy")
 
 def op_classes(ctx: Ctx) -> List[ClassInfo]:
     base = ctx.repo.require_class("jsonpath.patch.Op")
-    out = [c for c in ctx.repo.subclasses(base, strict=True)]
+    def abstract(c: ClassInfo) -> bool:
+        # an intermediate base that shares code between operations (`class _PathValueOp(Op)`) still has an
+        # abstract `apply`: it is not an operation
+        fn = ctx.repo.find_method(c, "apply")
+        return fn is None or any(ast.unparse(d).split(".")[-1] == "abstractmethod" for d in fn.node.decorator_list)
+
+    out = [c for c in ctx.repo.subclasses(base, strict=True) if not abstract(c)]
     if len(out) < 8:
         raise AnalysisError(f"expected 8 patch operation classes, found {len(out)}")
     return out
@@ -440,4 +446,13 @@ def r5_10(ctx: Ctx) -> RuleResult:
     return r6_1(ctx, "R5.10", only="patch", floor=5)
 
 
-RULES = [r5_1, r5_3, r5_4, r5_5, r5_6, r5_7, r5_8, r5_9, r5_10]
+def r5_11(ctx: Ctx) -> RuleResult:
+    """The document a patch produces is the RFC's every time it is applied: a value of the patch that reaches the
+    document (an insert, a replacement, the new root) is a deep copy, or a later operation - or the caller - changes
+    the patch itself and the next application gives another document (= R15.4)."""
+    from .c15 import r15_4
+
+    return r15_4(ctx, "R5.11")
+
+
+RULES = [r5_1, r5_3, r5_4, r5_5, r5_6, r5_7, r5_8, r5_9, r5_10, r5_11]
